@@ -15,7 +15,7 @@ RULE = ("histories of 1..30 operations drawn by a Hypothesis state machine from:
         "setcolumn, item and attribute assignment (scalar/array), in-place writes through the attribute, item "
         "and getcolumn views, filter, removerows (integer and tolerance), sortby, reorder, copy, copyrows "
         "(mask/index/slice), get_bigarray, set_bigarray (list and 2-D array), writefile+readfile, wrong-length "
-        "rejections, mutation of earlier copies; five initial states (empty+addcolumn, dict-built, dict of strided views of one table, text-file "
+        "rejections (column, mask, ragged table), mutation of earlier copies; six initial states (empty+addcolumn, dict-built, dict of strided views of one table, dict of int64 columns written with integer-valued floats, text-file "
         "loaded, HDF loaded); plus exhaustive enumeration of all sequences to depth 3 (quick) / 4 (thorough) "
         "over a fixed 14-operation alphabet from each initial state; arrays handed in are contiguous or strided views; oracle = ordered-dict model + aliasing "
         "probe + storage-independence of copies; non-trivial history = contains get_bigarray/set_bigarray "
@@ -45,10 +45,15 @@ class Harness(object):
         self.history = [("init", init)]
         self.copies = []
         kind, n, cols = init
-        cols = {k: [float(x) for x in v] for k, v in cols.items()}
+        self.intmode = kind == "ints"
+        cols = {k: [self._v(x) for x in v] for k, v in cols.items()}
         titles = list(cols)
         arrays = {t: np.array(cols[t], float) for t in titles}
-        if kind == "dict":
+        if kind == "ints":
+            # integer typed columns (peak ids, labels, counts as an integer HDF column or a dict of int arrays gives
+            # them); every value written later is integer valued, so in-place writes and replacements agree
+            self.cf = columnfile.colfile_from_dict({t: arrays[t].astype(np.int64) for t in titles})
+        elif kind == "dict":
             self.cf = columnfile.colfile_from_dict(arrays)
         elif kind == "views":
             # columns are strided views of one row-major (nrows x ncols) table
@@ -79,6 +84,9 @@ class Harness(object):
         for t in titles:
             self.model[t] = list(cols[t])
 
+    def _v(self, x):
+        return float(round(float(x))) if getattr(self, "intmode", False) else float(x)
+
     # ------------------------------------------------------------------ operations
     def apply(self, op, args):
         self.history.append((op, args))
@@ -87,7 +95,7 @@ class Harness(object):
     def _arr(self, vals):
         """columns handed to the columnfile: contiguous arrays, or (every third operation) strided
         views of a larger buffer, as produced by slicing a 2-D table"""
-        v = [float(x) for x in vals]
+        v = [self._v(x) for x in vals]
         if len(self.history) % 3 == 0 and len(v) > 0:
             buf = np.zeros((len(v), 3), float)
             buf[:, 1] = v
@@ -96,27 +104,29 @@ class Harness(object):
 
     def op_addcolumn(self, name, vals):
         self.cf.addcolumn(self._arr(vals), name)
-        self.model[name] = [float(v) for v in vals]
+        self.model[name] = [self._v(v) for v in vals]
 
     def op_setcolumn(self, name, vals):
         self.cf.setcolumn(self._arr(vals), name)
-        self.model[name] = [float(v) for v in vals]
+        self.model[name] = [self._v(v) for v in vals]
 
     def op_setitem_scalar(self, name, s):
+        s = self._v(s)
         self.cf[name] = s
         self.model[name] = [float(s)] * self.n
 
     def op_setitem_array(self, name, vals):
         self.cf[name] = self._arr(vals)
-        self.model[name] = [float(v) for v in vals]
+        self.model[name] = [self._v(v) for v in vals]
 
     def op_setattr_scalar(self, name, s):
+        s = self._v(s) if not isinstance(s, int) else s
         setattr(self.cf, name, s)
         self.model[name] = [float(s)] * self.n
 
     def op_setattr_array(self, name, vals):
         setattr(self.cf, name, self._arr(vals))
-        self.model[name] = [float(v) for v in vals]
+        self.model[name] = [self._v(v) for v in vals]
 
     def op_setattr_other(self, s):
         self.cf.newthing = s                     # not a column: must not become one
@@ -124,13 +134,16 @@ class Harness(object):
     def op_view_write(self, name, via, i, s):
         view = {"attr": lambda: getattr(self.cf, name), "item": lambda: self.cf[name],
                 "get": lambda: self.cf.getcolumn(name)}[via]()
+        s = self._v(s)
         view[i] = s
         self.model[name][i] = float(s)
 
     def op_inplace_mul(self, name, k):
         # the issue-289 usage: cf.name *= k  (getattr, in-place multiply, setattr)
+        if self.intmode and k != int(k):
+            k = 2.0
         v = getattr(self.cf, name)
-        v *= k
+        v *= type(v[0])(k) if self.intmode and len(v) else k
         setattr(self.cf, name, v)
         self.model[name] = [x * k for x in self.model[name]]
 
@@ -185,6 +198,7 @@ class Harness(object):
 
     def op_set_bigarray(self, twod, table):
         # table: list of rows-per-title (len = number of titles)
+        table = [[self._v(x) for x in r] for r in table]
         ar = [np.array(r, float) for r in table]
         if twod == 2:        # transposed view of a row-major (nrows x ncols) table
             self.cf.bigarray = np.array(ar, float).T.copy().T
@@ -214,6 +228,7 @@ class Harness(object):
     def op_mutate_copy(self, k, name, s):
         c, m = self.copies[k % len(self.copies)]
         if name in m:
+            s = self._v(s)
             c[name] = s
             m[name] = [float(s)] * len(m[name])
 
@@ -231,6 +246,21 @@ class Harness(object):
                 raise
         else:
             self.pending = [fail("reject", "addcolumn accepted a column of the wrong length", op="bad_addcolumn")]
+
+    def op_bad_set_bigarray(self, extra):
+        # a ragged list is refused (AssertionError "not rectangular"); the object must be what it was before
+        if len(self.cf.titles) < 2:
+            return
+        ragged = [np.zeros(self.n + extra + (1 if k else 0)) for k in range(len(self.cf.titles))]
+        try:
+            self.cf.bigarray = ragged
+        except AssertionError:
+            pass
+        except Exception as e:
+            if "rectang" not in str(e):
+                raise
+        else:
+            self.pending = [fail("reject", "set_bigarray accepted a ragged list of columns", op="bad_set_bigarray")]
 
     def op_bad_filter(self, extra):
         try:
@@ -282,8 +312,9 @@ class Harness(object):
             if len(views) == 3 and self.n > 0 and not fails:
                 for via in ("attr", "item", "get"):
                     old = float(views[via][0])
+                    probe = 12345.0 if self.intmode else 12345.5
                     try:
-                        views[via][0] = 12345.5
+                        views[via][0] = probe
                         seen = {o: float(getattr(cf, t)[0] if o == "attr" else
                                          (cf[t][0] if o == "item" else cf.getcolumn(t)[0]))
                                 for o in ("attr", "item", "get")}
@@ -292,9 +323,9 @@ class Harness(object):
                         fails.append(fail("alias", "write through %s view of %r raised %s after %s" %
                                           (via, t, e, lastop), op=lastop, via=via))
                         break
-                    if any(x != 12345.5 for x in seen.values()):
+                    if any(x != probe for x in seen.values()):
                         fails.append(fail("alias", "a write through the %s view of %r is not visible through "
-                                          "%s after %s" % (via, t, [o for o, x in seen.items() if x != 12345.5],
+                                          "%s after %s" % (via, t, [o for o, x in seen.items() if x != probe],
                                                            lastop), op=lastop, via=via))
                         break
         if "newthing" in cf.titles:
@@ -408,7 +439,7 @@ def make_machine(tmpdir):
                 HOLDER["fails"] = unknown
                 raise Violation(unknown[0]["kind"])
 
-        @initialize(kind=st.sampled_from(["dict", "views", "empty", "text", "hdf"]), n=st.integers(1, 6),
+        @initialize(kind=st.sampled_from(["dict", "views", "empty", "text", "hdf", "ints"]), n=st.integers(1, 6),
                     k=st.integers(1, 3), data=st.data())
         def init(self, kind, n, k, data):
             cols = {}
@@ -524,6 +555,10 @@ def make_machine(tmpdir):
         @rule(extra=st.sampled_from([1, 3]))
         def bad_filter(self, extra):
             self.do("bad_filter", [extra])
+
+        @rule(extra=st.sampled_from([0, 1, 2]))
+        def bad_set_bigarray(self, extra):
+            self.do("bad_set_bigarray", [extra])
 
         def teardown(self):
             rec = REC[0]
